@@ -164,12 +164,18 @@ func describe02(c Case02, upto int) string {
 			s += fmt.Sprintf(" ; r%d.SetSearchParams(r%d.SearchParams())", o.Reg, o.Reg2)
 		case "iterate":
 			s += fmt.Sprintf(" ; r%d.params.Iterate(%s)", o.Reg, iterateCallbacks[o.Set%len(iterateCallbacks)])
+		case "basicparser":
+			s += fmt.Sprintf(" ; BasicParser(%s, nil, r%d.Clone(), state %d)", quote(clip(string(o.Value))), o.Reg, setterStates[o.Setter%len(setterStates)])
 		default:
 			s += fmt.Sprintf(" ; r%d.%s", o.Reg, o.Kind)
 		}
 	}
 	return s
 }
+
+// setterStates: the state overrides the API setters pass to BasicParser.
+// Indexed like the setters (username and password have no state of their own: their values go to the host states).
+var setterStates = []url.State{url.StateSchemeStart, url.StateHost, url.StateHostname, url.StateHost, url.StateHostname, url.StatePort, url.StatePathStart, url.StateQuery, url.StateFragment}
 
 // iterateCallbacks names what the callback handed to SearchParams.Iterate does on every visit.
 var iterateCallbacks = []string{"edit value", "clear name", "delete the visited name", "append", "set the visited name", "sort", "read", "SetSearch(\"\")", "SetSearch(k=v&k=w)"}
@@ -315,6 +321,13 @@ func Check02(c Case02, r *core.Rec) {
 				y := regs[o.Reg2%len(regs)]
 				x.SetSearchParams(y.SearchParams())
 				mutated = true
+			case "basicparser":
+				// the parser's low-level entry point with one of the state overrides the setters use,
+				// on a copy of the register (the setters' guards are bypassed, so only "returns" is asked)
+				st := setterStates[o.Setter%len(setterStates)]
+				if v, err := p.BasicParser(string(o.Value), nil, x.Clone(), st); err == nil && v != nil {
+					touch(v)
+				}
 			case "spclone":
 				_ = x.SearchParams().Clone().String()
 			case "encode":
@@ -508,12 +521,12 @@ func Gen02(t *rapid.T) Case02 {
 		return c
 	}
 	n := rapid.IntRange(0, 12).Draw(t, "nops")
-	kinds := []string{"set", "set", "set", "set", "resolve", "resolve", "clone", "sp", "sp", "iterate", "setparams", "spclone", "encode", "decode", "reparse", "profileparse", "newurl"}
+	kinds := []string{"set", "set", "set", "set", "resolve", "resolve", "clone", "sp", "sp", "iterate", "setparams", "spclone", "encode", "decode", "reparse", "profileparse", "newurl", "basicparser"}
 	spOps := []string{"append", "delete", "set", "sort", "sortabs", "get", "getall", "has", "string"}
 	for i := 0; i < n; i++ {
 		o := Op02{Kind: gen.Pick(t, "kind", kinds), Reg: rapid.IntRange(0, 5).Draw(t, "reg")}
 		switch o.Kind {
-		case "set":
+		case "set", "basicparser":
 			o.Setter = rapid.IntRange(0, spec.NumSetters-1).Draw(t, "setter")
 			if rapid.IntRange(0, 5).Draw(t, "argKind") == 0 {
 				o.Value = B(genArg02(t, "value"))
@@ -548,7 +561,7 @@ func Gen02(t *rapid.T) Case02 {
 
 var P02 = core.Register(core.Prop[Case02]{
 	ID: "C02",
-	Rule: "a configuration (a predefined profile unchanged 30%, else 0..6 of 25 url / canonicalizer options with valued options drawn from families: special-scheme maps incl. without file / empty / nil / non-numeric ports, encoding overrides, generated percent-encode sets, total host callbacks, default schemes, sort modes; built with url.NewParser or canonicalizer.New) and a program: an initial Parse / ParseRef (arguments from hostile constants, arbitrary bytes incl. invalid UTF-8 and NUL, C01's mixture, 2% strings of 1 000..16 000 bytes) followed by 0..12 operations over a register file of URLs (nine setters, resolve, Clone, every SearchParams method incl. Iterate and Clone, SetSearchParams with another URL's handle, PercentEncodeString, DecodePercentEncoded, re-parse, profile ParseRef, NewUrl), all getters of all registers after every step; " +
+	Rule: "a configuration (a predefined profile unchanged 30%, else 0..6 of 25 url / canonicalizer options with valued options drawn from families: special-scheme maps incl. without file / empty / nil / non-numeric ports, encoding overrides, generated percent-encode sets, total host callbacks, default schemes, sort modes; built with url.NewParser or canonicalizer.New) and a program: an initial Parse / ParseRef (arguments from hostile constants, arbitrary bytes incl. invalid UTF-8 and NUL, C01's mixture, 2% strings of 1 000..16 000 bytes) followed by 0..12 operations over a register file of URLs (nine setters, resolve, Clone, every SearchParams method incl. Iterate and Clone, SetSearchParams with another URL's handle, PercentEncodeString, DecodePercentEncoded, re-parse, profile ParseRef, NewUrl, BasicParser with the setters' state overrides on a copy of a register; Iterate callbacks that call back into the same list), all getters of all registers after every step; " +
 		"oracle: every step returns (recover() around it; a panic is a violation with its stack); a parse never returns (nil, nil) and every getter works on a returned URL; a watchdog turns a case that does not return into a suspected hang, confirmed in a fresh process before it counts; " +
 		"non-trivial = the initial parse succeeded and at least one mutating operation ran, or the parse reached an authority under a non-default configuration; distinct by hash of the case",
 	Gen:   Gen02,
